@@ -242,13 +242,17 @@ pub fn c10_nontrivial(f: &RrFacts) -> bool {
 }
 
 pub fn c10(ctx: &mut Ctx) {
-    ctx.rule = "req/rep op sequences biased to several replier registrations/departures (1-5 repliers) interleaved with requests, replies and block/unblock of any sink incl. the rejected repliers' sinks; binding reference model: FIFO registration, a replier registered while an earlier one is surely bound must see exactly [Error(REPLIER_ALREADY_BOUND)] then close, a replier registered after all earlier ones surely left must be bound and served; non-trivial = >=2 repliers, >=1 rejected, and (two rejections back-to-back, or a rejected sink returned Pending, or a rebind happened)".into();
+    ctx.rule = "req/rep op sequences biased to several replier registrations/departures (1-5 repliers) interleaved with requests, replies and block/unblock of any sink incl. the rejected repliers' sinks (one leg also lets sinks fail, so that a replier departs with a failing flush); binding reference model: FIFO registration, a replier registered while an earlier one is surely bound must see exactly [Error(REPLIER_ALREADY_BOUND)] then close, a replier registered after all earlier ones surely left must be bound and served; non-trivial = >=2 repliers, >=1 rejected, and (two rejections back-to-back, or a rejected sink returned Pending, or a rebind happened)".into();
     ctx.assumptions.push("'surely' = separated by a Settle (spurious polls + run) with no sink blocked; otherwise either outcome (bound or properly rejected) is accepted, never a half-rejected replier".into());
     let g = RrGen { faults: false, close: false, wake_only: false, junk: false, big: false, many_repliers: true, bursts: false, max_len: 60, prelude: false };
     ctx.search("rr-repliers", move || rr::case_strategy(g), ctx.tier.pick(120_000, 3_000_000), true, rr_eval(RrOpts { probe: true }, c10_nontrivial));
     if ctx.failed() { return; }
     let g = RrGen { wake_only: true, ..g };
     ctx.search("rr-repliers-wake-only", move || rr::case_strategy(g), ctx.tier.pick(50_000, 1_000_000), true, rr_eval(RrOpts { probe: true }, c10_nontrivial));
+    if ctx.failed() { return; }
+    // departures that are not clean: the leaving (or rejected) replier's sink fails meanwhile
+    let g = RrGen { faults: true, wake_only: false, ..g };
+    ctx.search("rr-repliers-with-faults", move || rr::case_strategy(g), ctx.tier.pick(50_000, 1_000_000), true, rr_eval(RrOpts { probe: true }, c10_nontrivial));
     if ctx.failed() { return; }
     let alpha = vec![
         rr::RrOp::RegReq { cap: 2 }, rr::RrOp::RegRep { cap: 0 }, rr::RrOp::RegRep { cap: 2 }, rr::RrOp::Request { r: 0, hdr: 0 },
@@ -304,13 +308,20 @@ pub fn c16_ps_nontrivial(f: &PsFacts) -> bool { f.closed && f.close_with_peers &
 pub fn c16_rr_nontrivial(f: &RrFacts) -> bool { f.closed && f.close_with_peers && (f.close_with_blocked_or_buffered || f.close_after_socket || f.one_sided) }
 
 pub fn c16(ctx: &mut Ctx) {
-    ctx.rule = "router histories with CloseChannel (what Server::shutdown calls) inserted at a generated position, followed by more sends/blocks/unblocks; closing phase unblocks every sink and runs wake-driven; oracle: the future completes (bounded polls) and, for pub/sub, every frame pulled from a publisher is on the wire of every healthy adopted subscriber exactly once in order and nothing is left unflushed; non-trivial = close happened while >=1 peer was registered and (a sink was blocked or had buffered data, or the previous op was a registration, or (req/rep) only one side was connected)".into();
+    ctx.rule = "router histories with CloseChannel (what Server::shutdown calls) inserted at a generated position, followed by more sends/blocks/unblocks (two legs also let subscriber sinks fail at poll_ready/start_send/flush, before and during the final flush); closing phase unblocks every sink and runs wake-driven; oracle: the future completes (bounded polls) and, for pub/sub, every frame pulled from a publisher is on the wire of every healthy adopted subscriber exactly once in order and nothing is left unflushed; non-trivial = close happened while >=1 peer was registered and (a sink was blocked or had buffered data, or the previous op was a registration, or (req/rep) only one side was connected)".into();
     ctx.assumptions.push("world B does not include Server::shutdown's join_all; req/rep only promises termination (buffered requests/replies at shutdown are not claimed)".into());
     let g = PsGen { bursts: false, faults: false, close: true, wake_only: false, max_len: 50 };
     ctx.search("ps-close", move || ps::case_strategy(g), ctx.tier.pick(100_000, 3_000_000), true, ps_eval(c16_ps_nontrivial));
     if ctx.failed() { return; }
     let g = PsGen { bursts: false, faults: false, close: true, wake_only: true, max_len: 50 };
     ctx.search("ps-close-wake-only", move || ps::case_strategy(g), ctx.tier.pick(60_000, 1_500_000), true, ps_eval(c16_ps_nontrivial));
+    if ctx.failed() { return; }
+    // the final flush with subscribers failing in it: the healthy ones still get everything
+    let g = PsGen { bursts: false, faults: true, close: true, wake_only: false, max_len: 50 };
+    ctx.search("ps-close-with-faults", move || ps::case_strategy(g), ctx.tier.pick(60_000, 1_500_000), true, ps_eval(c16_ps_nontrivial));
+    if ctx.failed() { return; }
+    let g = PsGen { wake_only: true, ..g };
+    ctx.search("ps-close-with-faults-wake-only", move || ps::case_strategy(g), ctx.tier.pick(40_000, 1_000_000), true, ps_eval(c16_ps_nontrivial));
     if ctx.failed() { return; }
     let g = RrGen { faults: false, close: true, wake_only: false, junk: false, big: false, many_repliers: false, bursts: false, max_len: 50, prelude: false };
     ctx.search("rr-close", move || rr::case_strategy(g), ctx.tier.pick(100_000, 3_000_000), true, rr_eval(RrOpts::default(), c16_rr_nontrivial));
